@@ -177,7 +177,7 @@ def run(ctx):
                           heap=[(h["ty"], h["kind"], [c[1] for c in h["children"]]) for h in desc["heap"]]),
                      nontrivial=multi, bucket="aliased" if desc["locals_aliased"] else "max_vars=%s" % case["limits"]["max_vars"])
             if raised is not None or len(snaps) != 1:
-                ctx.fail("no snapshot produced (%r)" % (raised,), desc, tag="no-snapshot")
+                e1.no_snapshot(ctx, desc, raised)
                 continue
             obs = e1.observe(snaps[0], heap)
             oracle(ctx, case, heap, obs, desc)
@@ -188,7 +188,8 @@ def run(ctx):
                 ctx.fail("snapshot cannot be related to the program's objects: %s" % ex, desc, tag="unrelated")
     finally:
         e1.restore_clock(saved)
-    ctx.correspond("collector", e1.IMPORTS, "snap_case", "check_snap_case", lits, cj, shard=60)
+    e1.too_many_skipped(ctx, ctx.evaluations)
+    ctx.correspond("collector", e1.IMPORTS, "snap_case", "check_snap_case_identity", lits, cj, shard=60)
     deferred_temporaries(ctx, 120 if ctx.thorough else 25)
 
 
